@@ -48,6 +48,7 @@ package client
 //@   ensures $trlen == old($trlen) + 1
 //@   ensures $tr[old($trlen)] == ev("send", conn.out, cutnl(rawline))
 //@   ensures noCRLF($tr[old($trlen)].str)
+//@   ensures [C20] $loglen == old($loglen)
 //@ end
 
 //@ func (*Conn).Pass
@@ -57,6 +58,7 @@ package client
 //@   modifies $tr
 //@   ensures $trlen == old($trlen) + 1 && $tr[old($trlen)] == ev("send", conn.out, cutnl("PASS " + password))
 //@   ensures sendsOnly($tr, old($trlen), $trlen, conn.out, "PASS")
+//@   ensures [C20] $loglen == old($loglen) && masked($tr[old($trlen)].str) == "PASS **************"
 //@ end
 
 //@ func (*Conn).Nick
@@ -171,6 +173,7 @@ package client
 //@   requires conn != nil
 //@   modifies $tr
 //@   ensures sendsOnly($tr, old($trlen), $trlen, conn.out, "PING")
+//@   ensures [C18] $trlen == old($trlen) + 1 && $tr[old($trlen)] == ev("send", conn.out, cutnl("PING :" + message))
 //@ end
 
 //@ func (*Conn).Pong
@@ -179,6 +182,7 @@ package client
 //@   requires conn != nil
 //@   modifies $tr
 //@   ensures sendsOnly($tr, old($trlen), $trlen, conn.out, "PONG")
+//@   ensures [C18] $trlen == old($trlen) + 1 && $tr[old($trlen)] == ev("send", conn.out, cutnl("PONG :" + message))
 //@ end
 
 //@ func (*Conn).Authenticate
@@ -243,6 +247,7 @@ package client
 //@   requires conn != nil
 //@   modifies $tr
 //@   maintains sendsOnly($tr, old($trlen), $trlen, conn.out, "CAP")
+//@   ensures [C18,C19] len(capabilities) == 0 ==> $trlen == old($trlen) + 1 && $tr[old($trlen)] == ev("send", conn.out, cutnl("CAP " + subcommmand))
 //@   loop 0:
 //@     invariant true
 //@ end
@@ -827,7 +832,7 @@ package client
 //@ func hasPort
 //@   property C18
 //@   safety C18
-//@   ensures result <==> (exists c int :: lastOcc(s, ":", c) && (exists b int :: lastOcc(s, "]", b) && c > b))
+//@   ensures result <==> hasPortSpec(s)
 //@ end
 
 // dialProxy: exactly one dial, to cfg.Server, through the proxy dialer.
@@ -864,7 +869,8 @@ package client
 //@   ensures [C18] old(conn.cfg.Server) != "" && !old(conn.connected) ==>
 //@        conn.cfg.Server == (hasPortSpec(old(conn.cfg.Server)) ? old(conn.cfg.Server) : joinHostPort(old(conn.cfg.Server), conn.cfg.SSL ? "6697" : "6667"))
 //@ end
-//@ pred hasPortSpec(s string) := exists c int :: lastOcc(s, ":", c) && (exists b int :: lastOcc(s, "]", b) && c > b)
+// "has a port": the last ':' comes after the last ']' (as in net/http).
+//@ pred hasPortSpec(s string) := lastIdx(s, ":") > lastIdx(s, "]")
 
 // ConnectContext: REGISTER is dispatched exactly once, after a successful
 // internalConnect and before returning; a failed connect dispatches nothing.
@@ -880,3 +886,39 @@ package client
 //@   ensures result != nil ==> $trlen == pc
 //@   ensures result == nil ==> rcmd == "REGISTER" && pd == $trlen && pc < pd && $tr[pc].kind == kindof("rlock")
 //@ end
+
+// ---------------------------------------------------------------------------
+// handlers.go: registration and keep-alive (C18), password flow (C20)
+
+// h_REGISTER: exactly CAP LS (iff negotiation is enabled), PASS p (iff a
+// password is set), NICK nick, USER ident 12 * :name, in this order, and not
+// a single log record.
+//@ func (*Conn).h_REGISTER
+//@   property C18, C20
+//@   safety C18
+//@   let n0 := conn.cfg.EnableCapabilityNegotiation ? 1 : 0
+//@   let n1 := conn.cfg.Pass != "" ? 1 : 0
+//@   requires connOK(conn) && conn.cfg.Me != nil
+//@   modifies $tr
+//@   ensures $trlen == old($trlen) + n0 + n1 + 2
+//@   ensures conn.cfg.EnableCapabilityNegotiation ==> $tr[old($trlen)] == ev("send", conn.out, cutnl("CAP " + "LS"))
+//@   ensures conn.cfg.Pass != "" ==> $tr[old($trlen) + n0] == ev("send", conn.out, cutnl("PASS " + conn.cfg.Pass))
+//@   ensures $tr[old($trlen) + n0 + n1] == ev("send", conn.out, cutnl("NICK " + conn.cfg.Me.Nick))
+//@   ensures $tr[old($trlen) + n0 + n1 + 1] == ev("send", conn.out, cutnl("USER " + conn.cfg.Me.Ident + " 12 * :" + conn.cfg.Me.Name))
+//@   ensures [C20] $loglen == old($loglen)
+//@   ensures [C20] forall k int :: old($trlen) <= k && k < $trlen ==> $tr[k].kind == kindof("send") && $tr[k].obj == conn.out
+//@ end
+
+// h_PING: a PING carrying a token is answered by PONG with the same token.
+//@ func (*Conn).h_PING
+//@   property C18
+//@   requires conn != nil && line != nil && len(line.Args) >= 1
+//@   modifies $tr
+//@   ensures $trlen == old($trlen) + 1 && $tr[old($trlen)] == ev("send", conn.out, cutnl("PONG :" + line.Args[0]))
+//@ end
+
+// The connection password is read in h_REGISTER only (and written by
+// ConnectToContext); from there it flows to Pass -> Raw -> conn.out -> write,
+// which logs the masked form.
+//@ closure [C20] field_access Config.Pass in (*Conn).h_REGISTER, (*Conn).ConnectToContext
+//@ closure [C20] callers (*Conn).Pass in (*Conn).h_REGISTER
